@@ -307,4 +307,4 @@ def run(ctx):
                 ev.count(k if k == "builder_rejected" else f"polars_raised:{info[k]}")
         return f
 
-    ctx.campaign("main", window_cases(), oracle, max_examples=ctx.n(500, 80000))
+    ctx.campaign("main", window_cases(), oracle, max_examples=ctx.n(1200, 80000))
